@@ -84,6 +84,9 @@ class PyKdebugParser:
         return map(lambda t: self._format_trace(t), self.traces(kdebug, trace_codes))
 
     def callstacks(self, kdebug: io.IOBase, trace_codes=None):
+        # Images are announced by the dump itself; forget those learned from a previous request.
+        self.dyld_addresses.clear()
+        self.dyld_uuids.clear()
         callstacks_parser = CallstacksParser(self.dyld_addresses, self.dyld_uuids)
         return callstacks_parser.feed_generator(self.traces(kdebug, trace_codes))
 
